@@ -6,10 +6,10 @@ from .arith import simp, bnot, band, ite
 from .engine import Frame, State, GoPanic, PathEnd, ForkResult, Unsupported
 
 PURE_OPS = {"BinOp", "UnOp", "Convert", "ChangeType", "ChangeInterface", "Extract", "Field", "FieldAddr", "Phi",
-            "IndexAddr", "Index", "Slice", "MakeInterface", "TypeAssert", "Call", "Jump", "If", "Return"}
+            "IndexAddr", "Index", "Slice", "MakeInterface", "TypeAssert", "Call", "Jump", "If", "Return", "Panic"}
 PURE_BUILTINS = {"len", "cap", "min", "max"}
 PURE_INTRINSICS = {"vMaxLen", "vCfg", "vSameMem", "vBaseCap"}
-PURE_STUBS = {"math/bits.Len", "math/bits.Len64", "math/bits.Len32", "math/bits.Len16", "math/bits.Len8"}
+PURE_STUBS = {"math/bits." + n + s for n in ("Len", "TrailingZeros", "LeadingZeros", "OnesCount") for s in ("", "64", "32", "16", "8")}
 
 
 class NotPure(Exception):
@@ -125,7 +125,7 @@ def fn_static_pure(ex, fname, _stack=None):
                     return False
             color[i] = 2
             return True
-        ok = dfs(0)
+        ok = dfs(0) or fn.get("_allow_cyclic", False)
     fn["_purefn"] = ok
     return ok
 
@@ -142,11 +142,18 @@ def eval_region(ex, st, fn, start_block, prev_block, env, guard, stop_block, reg
     """evaluate from start_block (entered from prev_block) until stop_block (join) or Return.
     returns list of arrivals: (guard, kind, prev_block|None, env|retval)"""
     arrivals = []
-    stack = [(start_block, prev_block, env, guard, 0)]
+    stack = [(start_block, prev_block, env, guard, 0, ())]
     while stack:
-        b, prev, env, g, steps = stack.pop()
-        if steps > 40:
+        b, prev, env, g, steps, seen = stack.pop()
+        if steps > 60:
             raise NotPure()
+        if b in seen:
+            # loop inside the region: keep unrolling only while a further iteration is feasible
+            if seen.count(b) > ex.unwind:
+                raise NotPure()
+            if g is not True and ex.check(st, g) == "unsat":
+                continue
+        seen = seen + (b,)
         if b == stop_block:
             arrivals.append((g, "join", prev, env))
             region.npaths += 1
@@ -178,18 +185,21 @@ def eval_region(ex, st, fn, start_block, prev_block, env, guard, stop_block, reg
                 ip += 1
                 op = ins["op"]
                 if op == "Jump":
-                    stack.append((blk["succs"][0], b, env, g, steps + 1))
+                    stack.append((blk["succs"][0], b, env, g, steps + 1, seen))
+                    break
+                if op == "Panic":
+                    region.obligs.append((g, False, "explicit panic"))
                     break
                 if op == "If":
                     c = ex.val(st, tf, ins["cond"])
                     c = simp(c) if is_sym(c) else c
                     if c is True:
-                        stack.append((blk["succs"][0], b, env, g, steps + 1))
+                        stack.append((blk["succs"][0], b, env, g, steps + 1, seen))
                     elif c is False:
-                        stack.append((blk["succs"][1], b, env, g, steps + 1))
+                        stack.append((blk["succs"][1], b, env, g, steps + 1, seen))
                     else:
-                        stack.append((blk["succs"][1], b, env, band(g, z3.Not(c)), steps + 1))
-                        stack.append((blk["succs"][0], b, env, band(g, c), steps + 1))
+                        stack.append((blk["succs"][1], b, env, band(g, z3.Not(c)), steps + 1, seen))
+                        stack.append((blk["succs"][0], b, env, band(g, c), steps + 1, seen))
                     break
                 if op == "Return":
                     vals = [ex.val(st, tf, r) for r in ins["results"]]
